@@ -617,7 +617,7 @@ func c01ReadBuiltinNames() ([]string, error) {
 func TestVerif_C01(t *testing.T) {
 	log.SetOutput(io.Discard)
 	p := vk.Env()
-	res := vk.NewResult("bounded-exhaustive enumeration of GlyphLang programs in layers (L1 every operator × ordered pair of value shapes, L2 every operator pair/triple as an unparenthesised chain, L3 every statement tree up to the size bound over the template alphabet, L4 every built-in of the implementation's table × argument vectors over the shapes, L5 functions/defaults/arity, match patterns, pipes, callbacks, L6 scoping and aliasing scenarios, L7 every construct that walks the keys of an object × object sizes × literal/request-body source, each executed 400 times for the determinism clause); each program × input binding is rendered to source, run through the real lexer, parser and interpreter and compared with an independent reference semantics; a case is distinct by its source text and inputs, non-trivial (counted in distinct) if the reference assigns it an outcome")
+	res := vk.NewResult("bounded-exhaustive enumeration of GlyphLang programs in layers (L1 every operator × ordered pair of value shapes, L2 every operator pair/triple as an unparenthesised chain, L3 every statement tree up to the size bound over the template alphabet, L4 every built-in of the implementation's table × argument vectors over the shapes, L5 functions/defaults/arity, match patterns, pipes, callbacks, L6 scoping and aliasing scenarios, L7 every construct that walks the keys of an object × object sizes × literal/request-body source, each executed 400 times for the determinism clause, L8 every history of ≤ 2/3 requests that are refused by the nesting limit / fail deep down / are answered, and histories with a loop refused by the round limit, on one reused interpreter × judged requests at and around the deepest recursion / longest loop that fits on a fresh interpreter); each program × input binding is rendered to source, run through the real lexer, parser and interpreter and compared with an independent reference semantics; a case is distinct by its source text and inputs, non-trivial (counted in distinct) if the reference assigns it an outcome")
 	names, err := c01ReadBuiltinNames()
 	if err != nil {
 		t.Fatal(err)
@@ -711,7 +711,7 @@ func TestVerif_C01(t *testing.T) {
 	if c01RefPanics > 0 {
 		res.Note("HARNESS BUG: the reference interpreter panicked %d times", c01RefPanics)
 	}
-	res.Note("not judged (reference answers Unspecified): ordering of strings; == / != across kinds and on arrays/objects; mixed ==/< chains where spec §4.2 and §4.8/§12 group differently; level of %%; short-circuit of &&/|| when the undecided side does not evaluate to a boolean; non-boolean conditions; integer overflow; negative integer division/modulo rounding; float overflow/NaN and float text form; ints beyond 2^53 mixed with floats; missing fields; obj[\"k\"]; index assignment; $ on a module-level name within the request; bare assignment to an undeclared name; for over a non-collection; which order objects and keys() are walked in (all orders enumerated, outcome must be one of them; that every execution uses the same one is judged, layer L7); aliasing of arrays/objects (copy and share models both enumerated); fall-through of a body without return; match without a matching case; built-ins outside their documented domain; undocumented built-ins (no-crash and determinism only) except the conventional reading of append/keys/reverse/slice/flat/sort/map/filter/reduce/find/some/every/set/remove")
+	res.Note("not judged (reference answers Unspecified): ordering of strings; == / != across kinds and on arrays/objects; mixed ==/< chains where spec §4.2 and §4.8/§12 group differently; level of %%; short-circuit of &&/|| when the undecided side does not evaluate to a boolean; non-boolean conditions; integer overflow; negative integer division/modulo rounding; float overflow/NaN and float text form; ints beyond 2^53 mixed with floats; missing fields; obj[\"k\"]; index assignment; what `$` on a name that resolves to the module scope does (three readings enumerated: declares a shadowing local / updates the module binding for this evaluation / is refused — the outcome must be one of them; once a local shadows the name it is an ordinary local); bare assignment to a module-level name; bare assignment to an undeclared name; for over a non-collection; which order objects and keys() are walked in (all orders enumerated, outcome must be one of them; that every execution uses the same one is judged, layer L7); aliasing of arrays/objects (copy and share models both enumerated); fall-through of a body without return; match without a matching case; built-ins outside their documented domain; undocumented built-ins (no-crash and determinism only) except the conventional reading of append/keys/reverse/slice/flat/sort/map/filter/reduce/find/some/every/set/remove")
 	res.Write(p)
 }
 
